@@ -5,6 +5,7 @@ go 1.26.8
 require (
 	github.com/andybalholm/brotli v1.1.1
 	github.com/anishathalye/porcupine v1.3.0
+	github.com/gorilla/websocket v1.5.3
 	github.com/klauspost/compress v1.18.0
 	github.com/quic-go/quic-go v0.50.1
 	github.com/zishang520/engine.io-go-parser v1.3.2
@@ -15,7 +16,6 @@ require (
 
 require (
 	github.com/gookit/color v1.5.4 // indirect
-	github.com/gorilla/websocket v1.5.3 // indirect
 	github.com/quic-go/qpack v0.5.1 // indirect
 	github.com/vmihailenco/msgpack/v5 v5.4.1 // indirect
 	github.com/vmihailenco/tagparser/v2 v2.0.0 // indirect
